@@ -24,12 +24,24 @@ def classes(a, spec, res):
     return [k for k in ("blocked_records", "ev_shift_change", "rec_interrupted_service", "rec_renege", "ev_class_change") if a.get(k)]
 
 
+def big_pools_profile():
+    from .. import strategies as S
+    w = {"schedule": 1.0, "sched_preempt": 0.5, "batching": 0.8, "priorities": 0.3, "prio_preempt": 0.2, "capacity": 0.2, "self_loops": 0.3, "discipline": 0.2,
+         "server_priority": 0.2, "reneging": 0.1}
+    return S.Profile(list(w), weights=w, required=("schedule",), numeric="grid", max_nodes=2, max_classes=2, plans=("max_time",), horizon=(8.0, 20.0),
+                     budget=900, load="heavy", max_c=9, long_service=0.5, excluded=common.EXCL["C05"])
+
+
 def subchecks(tier):
     prof = common.full_profile("C05", horizon=(6.0, 18.0), load="heavy")
     # slotted nodes are outside the property but may sit upstream of the nodes it speaks about
     prof.weights.update({"ps": 0.0, "inf": 0.1, "slotted": 0.25, "slot_capacitated": 0.7, "slot_preempt": 0.7, "schedule": 0.45, "discipline": 0.5})
     return [system_subcheck("lattice", prof, lambda spec: [WorkConservation()], nontrivial, classes=classes,
                             n={"quick": 9600, "thorough": 50000}, rule="finite-server lattice; idle-server-vs-waiting monitor + coverage audit"),
+            system_subcheck("big_pools", big_pools_profile(), lambda spec: [WorkConservation()],
+                            lambda a, spec, res: a.get("ev_shift_change", 0) >= 2 and a.get("waited_records", 0) >= 1, classes=classes,
+                            n={"quick": 3000, "thorough": 20000},
+                            rule="server pools of up to 9 (fixed and scheduled, pre-emptive and not), batches, heavy load: many servers changing hands at one shift end; same monitor"),
             system_subcheck("slot_feed", common.slot_feed_profile("C05"), lambda spec: [WorkConservation()],
                             lambda a, spec, res: a.get("rec_interrupted_service", 0) >= 1 and a.get("ev_shift_change", 0) >= 2, classes=classes,
                             n={"quick": 3600, "thorough": 20000},
